@@ -168,7 +168,8 @@ class ProgGen:
             self.known_sids.append(sid)
             return w.gstr(t, self.text(maxlen=120), sid)
         if r < 0.75:
-            return [w.term(t, other)]
+            # a record of this thread that names ANOTHER (possibly live) thread
+            return [w.term(t, other)] if rnd.random() < 0.6 else [w.thd(t, pid, other)]
         if r < 0.85:
             return [w.tpid(t, pid)]
         if r < 0.92 and self.trc_windows:
